@@ -2,7 +2,9 @@ import PanderaModel.Props.C03
 #print axioms Pandera.C03.fieldErrors_strip
 #print axioms Pandera.C03.targets_strip
 #print axioms Pandera.C03.checks_ignore_parsing_options
-#print axioms Pandera.C03.validate_ok_conforms
+#print axioms Pandera.C03.validate_ok_core_checks
+#print axioms Pandera.C03.validate_ok_conforms_partial
+#print axioms Pandera.C03.K_C03_staleColumnInfo_witness
 #print axioms Pandera.C03.filter_keeps_only_declared
 #print axioms Pandera.C03.coerceValue_idem
 #print axioms Pandera.C03.coerceValue_fits
